@@ -278,14 +278,45 @@ LAYOUTS = [
 ]
 
 
+def _match(pat, parts, recursive):
+    """glob semantics on path components (no hidden files in the layouts)"""
+    import fnmatch
+    if not pat:
+        return not parts
+    if pat[0] == "**" and recursive:
+        if len(pat) == 1:
+            return len(parts) >= 1
+        return any(_match(pat[1:], parts[k:], recursive) for k in range(len(parts)))
+    if not parts:
+        return False
+    return fnmatch.fnmatchcase(parts[0], pat[0]) and _match(pat[1:], parts[1:], recursive)
+
+
+def expand(paths, frm, uri, recursive, search_path=None):
+    """Which of `paths` an import statement `uri` written in file `frm` reaches (approximation used by the
+    generator only, to keep most imports and references meaningful; the model gets the real expansion)."""
+    if search_path is not None:
+        for d in [posixpath.dirname(frm) or "."] + list(search_path):
+            cand = posixpath.normpath(posixpath.join(d, uri))
+            if cand in paths:
+                return [paths.index(cand)]
+        return []
+    pat = posixpath.normpath(posixpath.join(posixpath.dirname(frm) or ".", uri))
+    if pat.startswith(".."):
+        return []
+    pp = pat.split("/")
+    out = [k for k, q in enumerate(paths) if _match(pp, q.split("/"), recursive)]
+    return sorted(out, key=lambda k: paths[k])
+
+
 def gen_case(r, n_files=None, fail=None, with_history=True):
     """Random case. fail: None | 'one' (one failing file / phase) | 'random'."""
-    n = n_files or r.weighted([(1, 1), (2, 4), (3, 6), (4, 5), (5, 3), (6, 1)])
+    n = n_files or r.weighted([(1, 1), (2, 4), (3, 6), (4, 5), (5, 3), (6, 2)])
     layout = r.choice(LAYOUTS)
     paths = layout[:n]
     provider = r.choice(PROVIDERS)
     grepo = provider.endswith("grepo")
-    recursive = r.chance(0.3)
+    recursive = r.chance(0.3) and provider != "rrel"
     search_path = None
     if provider in ("plain_uri", "fqn_uri") and r.chance(0.25):
         dirs = sorted({posixpath.dirname(p) or "." for p in paths})
@@ -294,48 +325,65 @@ def gen_case(r, n_files=None, fail=None, with_history=True):
     case = {"provider": provider, "recursive": recursive, "search_path": search_path, "global_repo": r.chance(0.6),
             "dirs": sorted({posixpath.dirname(p) for p in layout if posixpath.dirname(p)})}
     if grepo:
-        pats = [["*.model"], ["*.model", "sub/*.model"], ["**/*.model"], ["lib/*.model", "m/*.model", "*.model"], [r.choice(paths)], ["*/*.model", "?.model"]]
-        case["patterns"] = r.choice(pats)
-        if case["patterns"] == ["**/*.model"]:
-            case["recursive"] = True
+        pats = [["*.model"], ["*.model", "sub/*.model"], ["**/*.model"], ["lib/*.model", "m/*.model", "*.model"], [r.choice(paths)], ["*/*.model", "?.model"],
+                ["m/*.model"], ["sub/*.model", "sub/deep/*.model"], [r.choice(paths), r.choice(paths)]]
+        for _ in range(8):
+            cand = r.choice(pats)
+            rec = cand == ["**/*.model"] or recursive
+            if all(expand(paths, "x", u, rec) for u in cand):
+                break
+        case["patterns"] = cand
+        case["recursive"] = rec
+        recursive = rec
     nb = r.weighted([(0, 5), (1, 3), (2, 2)])
     case["builtins"] = [r.sample(NAMES, r.range(1, 3)) for _ in range(nb)]
     files = []
+    reach = []
     for i, p in enumerate(paths):
         imports = []
         for _ in range(r.weighted([(0, 2), (1, 5), (2, 4), (3, 1)])):
-            kind = r.weighted([("file", 10), ("self", 1), ("glob", 3), ("odd", 2), ("missing", 1 if fail == "random" else 0)])
-            tgt = r.choice(paths)
-            if search_path is not None:
-                u = r.choice([posixpath.basename(tgt), tgt, posixpath.basename(tgt)])
-                if kind == "missing":
-                    u = "nothere.model"
-            elif kind == "file":
-                u = rel(p, tgt)
-            elif kind == "self":
-                u = rel(p, p)
-            elif kind == "glob":
-                u = r.choice(["*.model", "../*.model", "sub/*.model", "?.model", "*/*.model", "**/*.model" if recursive else "*.model", "[ab].model"])
-            elif kind == "odd":
-                u = r.choice(["./" + rel(p, tgt), "x/../" + rel(p, tgt) if False else "./././" + rel(p, tgt), posixpath.join(posixpath.dirname(rel(p, tgt)) or ".", ".", posixpath.basename(tgt))])
-            else:
-                u = "nothere.model"
+            for _try in range(4):
+                kind = r.weighted([("file", 10), ("self", 1), ("glob", 4), ("odd", 2)])
+                tgt = r.choice(paths)
+                if search_path is not None:
+                    u = r.choice([posixpath.basename(tgt), tgt, posixpath.basename(tgt)])
+                elif kind == "file":
+                    u = rel(p, tgt)
+                elif kind == "self":
+                    u = rel(p, p)
+                elif kind == "glob":
+                    u = r.choice(["*.model", "../*.model", "sub/*.model", "?.model", "*/*.model", "**/*.model" if recursive else "*.model", "[ab].model",
+                                  "../*/*.model", "x/*.model", "deep/*.model", "../lib/*.model"])
+                else:
+                    u = r.choice(["./" + rel(p, tgt), "./././" + rel(p, tgt), posixpath.join(posixpath.dirname(rel(p, tgt)) or ".", ".", posixpath.basename(tgt))])
+                if expand(paths, p, u, recursive, search_path):
+                    break
             imports.append(u)
         elems = r.sample(NAMES[:6], r.weighted([(0, 1), (1, 4), (2, 4), (3, 2)]))
+        if not imports and not elems:
+            elems = [r.choice(NAMES[:6])]       # a completely empty file is not a model object (out of scope)
         files.append({"path": p, "versions": [{"imports": imports, "elems": elems, "refs": []}]})
-    # references: names defined somewhere (own file, other files, builtins), occasionally dangling
-    pool = sorted({e for f in files for e in f["versions"][0]["elems"]} | {e for b in case["builtins"] for e in b})
-    for f in files:
+    for i, f in enumerate(files):
         v = f["versions"][0]
-        k = r.weighted([(0, 2), (1, 4), (2, 3), (3, 1)])
+        if grepo:
+            rs = [k for u in case["patterns"] for k in expand(paths, "x", u, recursive)]
+        else:
+            rs = [k for u in v["imports"] for k in expand(paths, f["path"], u, recursive, search_path)]
+        reach.append(rs)
+    # references: mostly to names visible through the own file, its imports or the builtins
+    allnames = sorted({e for f in files for e in f["versions"][0]["elems"]} | {e for b in case["builtins"] for e in b})
+    for i, f in enumerate(files):
+        v = f["versions"][0]
+        visible = list(v["elems"]) + [e for k in reach[i] for e in files[k]["versions"][0]["elems"]] + [e for b in case["builtins"] for e in b]
+        k = r.weighted([(0, 2), (1, 4), (2, 3), (3, 2)])
         for _ in range(k):
-            if v["elems"] and r.chance(0.35):
-                v["refs"].append(r.choice(v["elems"]))
-            elif pool:
-                v["refs"].append(r.choice(pool))
+            if visible and (fail is None or r.chance(0.93)):
+                v["refs"].append(r.choice(visible))
+            elif fail == "random" and allnames:
+                v["refs"].append(r.choice(allnames))
     # failures
     if fail:
-        nfail = 1 if fail == "one" else r.weighted([(0, 3), (1, 5), (2, 2)])
+        nfail = 1 if fail == "one" else r.weighted([(0, 2), (1, 5), (2, 2)])
         for _ in range(nfail):
             v = r.choice(files)["versions"][0]
             ph = r.choice(PHASES)
@@ -346,26 +394,29 @@ def gen_case(r, n_files=None, fail=None, with_history=True):
             elif ph == "mp":
                 v["mp"] = True
             elif ph == "unres":
-                v["refs"].insert(r.below(len(v["refs"]) + 1), "q1" if "q1" not in pool else "e5")
+                v["refs"].insert(r.below(len(v["refs"]) + 1), "q1" if "q1" not in allnames else "e5")
             elif ph == "nofile" and not grepo:
                 v["imports"].insert(r.below(len(v["imports"]) + 1), "nothere.model")
-    # version 1: the repair (flags off, missing imports dropped); references stay
-    for f in files:
+    # version 1: the repair (flags off, missing imports dropped, dangling references dropped)
+    for i, f in enumerate(files):
         v = f["versions"][0]
-        f["versions"].append({"imports": [u for u in v["imports"] if u != "nothere.model"], "elems": list(v["elems"]), "refs": list(v["refs"])})
+        visible = set(v["elems"]) | {e for k in reach[i] for e in files[k]["versions"][0]["elems"]} | {e for b in case["builtins"] for e in b}
+        f["versions"].append({"imports": [u for u in v["imports"] if u != "nothere.model"], "elems": list(v["elems"]),
+                              "refs": [x for x in v["refs"] if x in visible]})
     case["files"] = files
     # history
     ops = []
-    nops = r.range(2, 6) if with_history else 1
-    for _ in range(nops):
-        ops.append({"op": "load", "file": r.below(n)})
-        if fail and r.chance(0.5):
+    nops = r.range(2, 5) if with_history else 1
+    main = r.below(n)
+    for k in range(nops):
+        ops.append({"op": "load", "file": main if (k == 0 or r.chance(0.4)) else r.below(n)})
+        if fail and r.chance(0.4):
             for i in r.sample(list(range(n)), r.range(1, n)):
                 ops.append({"op": "write", "file": i, "version": 1})
     if fail:
         for i in range(n):
             ops.append({"op": "write", "file": i, "version": 1})
-        ops.append({"op": "load", "file": ops[0]["file"]})
+        ops.append({"op": "load", "file": main})
         if r.chance(0.5):
             ops.append({"op": "load", "file": r.below(n)})
     case["ops"] = ops
@@ -433,7 +484,13 @@ def run_cases(chk, cases, tag):
         for c, x in zip(ch, o):
             outs[id(c)] = x
     outs = [outs[id(c)] for c in cases]
-    hashes, errs = core.coq_eval(tag, IMPORTS, [coq_case(c, o["expansions"], "run_case_hash") for c, o in zip(cases, outs)], shard=200)
+    # few large shards: starting coqc (loading the libraries) costs far more than evaluating the cases
+    nproc = core.NPROC
+    core.NPROC = max(1, min(nproc, 3 if len(cases) < 1500 else 6))
+    try:
+        hashes, errs = core.coq_eval(tag, IMPORTS, [coq_case(c, o["expansions"], "run_case_hash") for c, o in zip(cases, outs)], shard=400)
+    finally:
+        core.NPROC = nproc
     # full model text only where the hash of the canonical outcome differs (printing strings is slow in coqc)
     vals = []
     diff = []
